@@ -254,6 +254,7 @@ type Job struct {
 	Universe []string `json:"universe"`
 	Detail   bool     `json:"detail"` // record strings found and links per file
 	Taint    string   `json:"taint"`
+	First    string   `json:"first"` // the decoded document is first published with this visibility, then as asked (same *Document)
 }
 
 type FileObs struct {
@@ -448,6 +449,11 @@ func Child(r io.Reader, w io.Writer) error {
 			}
 			continue
 		}
+		if last && job.First != "" {
+			o := job.Opts
+			o.Living = job.First
+			ghtml.NewPublisher(doc, options(o)).Publish(&memWriter{raw: map[int][]byte{}}, job.Jobs)
+		}
 		done := make(chan error, 1)
 		go func() {
 			done <- ghtml.NewPublisher(doc, options(job.Opts)).Publish(mw, job.Jobs)
@@ -634,6 +640,10 @@ func observe(c Case) Obs {
 		}
 		if hasPeople(c.Twin) {
 			add("twin", Job{Mode: "site", Texts: []string{Render(c.Twin)}, Opts: c.Opts, Jobs: jobs[0]}, false)
+		}
+		if c.Opts.Living != "show" {
+			// the same decoded document published with everybody shown first, in the same process
+			add("aftershow", Job{Mode: "site", Texts: []string{text}, Opts: c.Opts, Jobs: jobs[0], Universe: uni, Detail: true, First: "show"}, false)
 		}
 		if hasPeople(c.Prior) {
 			add("prior", Job{Mode: "site", Texts: []string{Render(c.Prior), text}, Opts: c.Opts, Jobs: jobs[0]}, false)
